@@ -118,6 +118,9 @@ impl ParserState {
     }
 
     fn parse_value(&mut self, tag: u8, name: String, value: Bytes) -> Result<(), IppParseError> {
+        // Verification hook: remembered while the executor can still fold it (see verif_shim::infeasible_if)
+        #[cfg(kani)]
+        let verif_marker_empty = value.is_empty();
         let ipp_value = IppValue::parse(tag, value)?;
 
         trace!("Value tag: {:0x}: {}: {}", tag, name, ipp_value);
@@ -134,6 +137,8 @@ impl ParserState {
             match ipp_value {
                 IppValue::Other { ref data, .. } if data.is_empty() => {}
                 _ => {
+                    #[cfg(kani)]
+                    crate::verif_shim::infeasible_if(verif_marker_empty);
                     error!("Invalid begin collection attribute");
                     return Err(IppParseError::InvalidCollection);
                 }
@@ -145,6 +150,8 @@ impl ParserState {
             match ipp_value {
                 IppValue::Other { ref data, .. } if data.is_empty() => {}
                 _ => {
+                    #[cfg(kani)]
+                    crate::verif_shim::infeasible_if(verif_marker_empty);
                     error!("Invalid end collection attribute");
                     return Err(IppParseError::InvalidCollection);
                 }
